@@ -83,7 +83,7 @@ def generate(ctx):
             kp = 1.001
         tol = float(rng.choice([1e-4, 1e-6, 1e-8, 1e-10]))
         fr = np.concatenate([[0.01, 0.1], rng.uniform(0.2, 1.0, 4), rng.uniform(1.0, 4.0, 6)])
-        loads = np.sort(np.round(fr * m["Rm"], 3)).tolist()
+        loads = np.unique(np.round(fr * m["Rm"], 3)).tolist()      # sorted, no duplicates after rounding
         yield {"law": kind, "mat": m, "kp": kp, "tol": tol, "loads": loads,
                "container": ["float", "np.float64", "array1", "arrayN", "series_range", "series_multiindex", "series1"][i % 7]}
 
@@ -179,7 +179,7 @@ def run_case(case, ctx):
             ctx.check("odd", bool(np.all(np.abs(np.asarray(neg) + vec) <= allow(vec))), observed=neg, expected=-vec,
                       tags=narrow, detail={"branch": branch})
         if tol <= 1e-10:
-            ctx.check("strictly_increasing", bool(np.all(np.diff(vec) > 0)), observed=vec, tags=narrow,
+            ctx.check("strictly_increasing", bool(np.all(np.diff(vec)[np.diff(L) > 0] > 0)), observed=vec, tags=narrow,
                       detail={"branch": branch, "L": L})
         # strain is the Ramberg-Osgood (resp. Masing) strain of the stress
         eps = np.asarray(strain(vec.copy(), L.copy()), dtype=float)
